@@ -93,6 +93,55 @@ def prf_sites(chk):
             chk.violation(R, inst, F.where(c), 'call shape is %s' % got, key='%s %s' % (R, fn))
 
 
+def prf_output_cleared(chk):
+    """br_tls_phash XORs its stream into the output buffer (that is how TLS 1.0 combines P_MD5 and P_SHA-1), so each PRF entry point must
+    clear the whole output first: PRF(secret, label, seed) is then a function of its inputs and not of what the buffer held.  Rule:
+    in each of the three PRFs a memset(dst, 0, len) over the dst / len parameters dominates every br_tls_phash call, and
+    br_tls_phash itself combines by XOR (its stores to the output are xors with a load of the same address)."""
+    R = 'tls-prf-output-cleared'
+    n = 0
+    for src, fn, calls in (('src/ssl/prf_md5sha1.c', 'br_tls10_prf', 2), ('src/ssl/prf_sha256.c', 'br_tls12_sha256_prf', 1), ('src/ssl/prf_sha384.c', 'br_tls12_sha384_prf', 1)):
+        u = build.load_unit(src)
+        F = next((irf.Func(u, f) for f in u['functions'] if f['name'] == fn and f.get('blocks')), None)
+        if F is None:
+            raise AnalysisBroken('%s vanished' % fn)
+        DST, LEN = {'k': 'a', 'v': 0}, {'k': 'a', 'v': 1}
+        ph = F.calls('br_tls_phash')
+        if len(ph) != calls:
+            raise AnalysisBroken('%s: %d br_tls_phash calls (expected %d)' % (fn, len(ph), calls))
+        ms = [c for c in F.calls() if (c.get('callee') or '').startswith(('llvm.memset', 'memset')) and F.strip_casts(c['ops'][0]) == DST
+              and c['ops'][1].get('v') == 0 and F.strip_casts(c['ops'][2]) == LEN]
+        n += 1
+        inst = '%s: the output buffer is zeroed over its whole length before the XOR-accumulating P_hash runs' % fn
+        bad = [c for c in ph if not (F.strip_casts(c['ops'][0]) == DST and F.strip_casts(c['ops'][1]) == LEN and any(F.dominates(m['id'], c['id']) for m in ms))]
+        if bad:
+            chk.violation(R, inst, F.where(bad[0]), 'no memset(dst, 0, len) dominates this br_tls_phash call: the PRF output is XORed with the previous contents of '
+                          'the buffer (a reused key-block or verify_data buffer gives a different result than a fresh one)', key='%s %s' % (R, fn))
+        else:
+            chk.ok(R, inst, F.where(ph[0]))
+    u = build.load_unit('src/ssl/prf.c')
+    F = next((irf.Func(u, f) for f in u['functions'] if f['name'] == 'br_tls_phash' and f.get('blocks')), None)
+    if F is None:
+        raise AnalysisBroken('br_tls_phash vanished')
+    n += 1
+    inst = 'br_tls_phash: output bytes are combined by XOR with the buffer contents'
+    xs = []
+    for i in F.insts.values():
+        if i['op'] != 'store':
+            continue
+        v = F.strip_casts(i['ops'][0])
+        if v['k'] == 'i' and F.insts[v['v']]['op'] == 'xor':
+            for o in F.insts[v['v']]['ops']:
+                o = F.strip_casts(o)
+                if o['k'] == 'i' and F.insts[o['v']]['op'] == 'load' and F.strip_casts(F.insts[o['v']]['ops'][0]) == F.strip_casts(i['ops'][1]):
+                    xs.append(i)
+    if xs:
+        chk.ok(R, inst, F.where(xs[0]))
+    else:
+        chk.violation(R, inst, F.where(), 'no `buf[u] ^= ...` store found: the TLS 1.0 PRF (P_MD5 xor P_SHA-1) relies on it', key=R + ' phash')
+    chk.floor('prf output rules', n, 4)
+
+
 def tls10_prf_shape(chk):
     """RFC 2246 5: PRF(secret, label, seed) = P_MD5(S1, ...) XOR P_SHA-1(S2, ...), S1 / S2 = first / last ceil(L/2) bytes of the secret"""
     R = 'tls-prf-call-shape'
@@ -1073,6 +1122,7 @@ def run(tier):
             chk.violation(R, inst, src, 'slots: %s' % slots, key='%s %s slots' % (R, h))
     prf_sites(chk)
     tls10_prf_shape(chk)
+    prf_output_cleared(chk)
     hmac_ct_window(chk)
     hmac_key_rules(chk)
     md_padding(chk)
